@@ -26,7 +26,8 @@ REQUIRED = ["prep_checked:dominion", "prep_checked:hart", "prep_rejections_check
             "sample_given_as_a_series_with_other_row_labels", "cvrs_whose_tally_pool_is_not_their_own_batch",
             "lookups_in_a_manifest_whose_phantom_batch_is_not_the_last_row",
             "sample_given_as_a_one_pass_iterator",
-            "hart_manifests_with_a_real_batch_named_like_the_phantom_batch"]
+            "hart_manifests_with_a_real_batch_named_like_the_phantom_batch",
+            "dominion_manifests_with_an_unlabelled_batch"]
 ASSUMPTIONS = ["unique (tabulator, batch) labels per manifest", "Dominion lookup is 1-based, Hart lookup 0-based, as each "
                "vendor module documents and its test pins", "phantom CVR ids use the documented prefix 'phantom-1-'"]
 N_CASES = {"quick": 8000, "thorough": 64000}
@@ -100,9 +101,12 @@ def frames(case, vendor):
 
 def _frames(case, vendor, pd, sizes):
     if vendor == "dominion":
+        # (one batch may be unlabelled - loose ballots logged without tabulator and batch: its cards are cards all the same)
+        ub = case.get("unlabelled_batch")
+        blank = lambda i, v: None if (ub is not None and i == ub % len(sizes)) else v
         return pd.DataFrame({"Tray #": [i + 1 for i in range(len(sizes))],
-                             "Tabulator Number": [10 + i // 3 for i in range(len(sizes))],
-                             "Batch Number": [i + 1 for i in range(len(sizes))],
+                             "Tabulator Number": pd.Series([blank(i, 10 + i // 3) for i in range(len(sizes))], dtype=object),
+                             "Batch Number": pd.Series([blank(i, i + 1) for i in range(len(sizes))], dtype=object),
                              "Total Ballots": sizes,
                              "VBMCart.Cart number": [1 + i // 4 for i in range(len(sizes))]})
     return pd.DataFrame({"Container": [f"box{i // 2}" for i in range(len(sizes))],
@@ -129,6 +133,7 @@ def run_shard(spec, rec):
         case["sample_container"] = rng.choice(("list", "list", "array", "series", "series_relabelled", "iterator"))
         case["tally_pool_mode"] = rng.choice((None, None, "own", "merged", "precinct"))
         case["numeric_batches"] = rng.random() < 0.25
+        case["unlabelled_batch"] = rng.randrange(8) if rng.random() < 0.1 else None
         run_case(case, rec)
 
 
@@ -159,6 +164,8 @@ def run_case(case, rec):
         rec.count("manifest_counts_stored_unsigned_narrow_or_float")
     if case.get("stale_cum"):
         rec.count("manifest_already_carries_a_cumulative_count_column")
+    if case.get("unlabelled_batch") is not None and vendor == "dominion":
+        rec.count("dominion_manifests_with_an_unlabelled_batch")
     if case.get("numeric_batches") and vendor == "hart" and bound > sum(sizes):
         rec.count("hart_manifests_with_a_real_batch_named_like_the_phantom_batch")
     if case.get("index_mode", "default") != "default":
@@ -168,7 +175,8 @@ def run_case(case, rec):
 
     # ---- prep_manifest ------------------------------------------------------------------------------------
     df = frames(case, vendor)
-    labels = [(str(a), str(b)) for a, b in zip(df[tabcol], df[batchcol])]
+    lab_ = lambda v: "nan" if (v is None or v != v) else str(v)      # (a blank cell reads "nan" once pandas has handled the frame)
+    labels = [(lab_(a), lab_(b)) for a, b in zip(df[tabcol], df[batchcol])]
     ok, res = rec.guard(f"c17.call:{vendor}.prep_manifest", V.prep_manifest, df.copy(), bound, case["n_cvrs"])
     if not ok:
         return
